@@ -43,6 +43,7 @@ type cnTxSpec struct {
 	Node     string `json:"node,omitempty"`     // regnode: the node being registered (the signer may be someone else)
 	Runtimes string `json:"runtimes,omitempty"` // regnode: "" (validator only) | "R0" | "R0,R1": compute role for these runtimes
 	RtVers   string `json:"rtvers,omitempty"`   // regnode: runtime versions the node runs, "R0:1,R1:0" (default 0)
+	RtMore   string `json:"rtmore,omitempty"`   // regnode: further runtime entries appended to the descriptor, "R0:2,R0:2" (several versions of one runtime; repeats must be refused)
 	Deps     string `json:"deps,omitempty"`     // regruntime: deployments in descriptor order, "ver@validFrom;ver@validFrom" (default "0@0")
 	Gov      string `json:"gov,omitempty"`      // regruntime: entity | runtime
 	Shape    string `json:"shape,omitempty"`    // regruntime: "g<workers>b<backups>m<max nodes per entity, 0 = unset>p<min pool: workers+this>v<validator-set constraint 0/1>s<allowed stragglers>"
@@ -82,6 +83,10 @@ func (n *cnNet) nodeAccounts() []cnAccount {
 	var out []cnAccount
 	for _, v := range n.vals {
 		out = append(out, cnAccount{v.name, v.ident.NodeSigner, staking.NewAddress(v.ident.NodeSigner.Public())})
+	}
+	// the accounts of the nodes' consensus keys: keys that sign every node descriptor but are not the node's identity
+	for _, v := range n.vals {
+		out = append(out, cnAccount{v.name + ".c", v.ident.ConsensusSigner, staking.NewAddress(v.ident.ConsensusSigner.Public())})
 	}
 	return out
 }
@@ -222,6 +227,14 @@ func (n *cnNet) buildTx(spec *cnTxSpec, rng *rand.Rand) ([]byte, error) {
 			}
 			for _, r := range strings.Split(rts, ",") {
 				nd.Runtimes = append(nd.Runtimes, &node.Runtime{ID: runtimeID(r), Version: version.Version{Patch: vers[r]}})
+			}
+			// further entries (a node may list several versions of a runtime; each version once)
+			for _, kv := range strings.Split(spec.RtMore, ",") {
+				var v int
+				if i := strings.IndexByte(kv, ':'); i > 0 {
+					fmt.Sscanf(kv[i+1:], "%d", &v)
+					nd.Runtimes = append(nd.Runtimes, &node.Runtime{ID: runtimeID(kv[:i]), Version: version.Version{Patch: uint16(v)}})
+				}
 			}
 		})
 		if err != nil {
@@ -407,6 +420,9 @@ func (n *cnNet) buildTx(spec *cnTxSpec, rng *rand.Rand) ([]byte, error) {
 		alpha := n.vrfAlpha
 		if spec.Validity == "badpi" {
 			alpha = append([]byte("not the alpha"), alpha...)
+		}
+		if spec.Validity == "stalepi" {
+			alpha = n.vrfPrevAlpha
 		}
 		// (keys that reached the VRF role through a rotation were generated for another role: same key, VRF-capable copy)
 		vs, err := vrfCapable(n.vals[idx].rot["vrf"])
